@@ -32,16 +32,19 @@ theorem initMapSize_observed :
 
 theorem pageSize_pos : 0 < KV.Gen.C18.pageSize := by decide
 
+/-- the header `ReadFactory` reads ahead (modelled by `St.hdrLeft`) is `ReadCompressed::kMagicSize` -/
+theorem kMagicSize_eq : kMagicSize = KV.Gen.C18.kMagicSize := by decide
+
 /-! ## window invariant -/
 
 /-- **window_inv**: after construction (any backend, any `min_buffer`) the window is the slice
 `bytes[mappedOffset, mappedOffset + len)` of the input, `position_` lies inside it, `at_end_` implies the
 window reaches EOF (all packed in `Inv`), `Offset()` is 0; and every operation preserves this. -/
 theorem window_inv (env : Env) (hp : 0 < env.cfg.page) (hH : env.cfg.fixH = true) (hI : env.cfg.fixI = true)
-    (G : NumKind → Grammar) (hG : ∀ k, GrammarOK (G k)) :
+    (hF : env.cfg.fixF = true) (G : NumKind → Grammar) (hG : ∀ k, GrammarOK (G k)) :
     (∀ mb b, Inv env (init env mb b) ∧ (init env mb b).offset = 0) ∧
     (∀ op st, Inv env st → Inv env (runOp env G op st).2) :=
-  ⟨fun mb b => init_spec env mb b hp hH, fun op st h => (op_transparent_aux env G hG hH hI op st h).2.2⟩
+  ⟨fun mb b => init_spec env mb b hp ⟨hH, hF⟩, fun op st h => (op_transparent_aux env G hG ⟨hH, hF⟩ hI op st h).2.2⟩
 
 /-- what `Inv` says, spelled out -/
 theorem window_inv_meaning (env : Env) (st : St) (h : Inv env st) :
@@ -58,25 +61,25 @@ reachable state: the result is the spec's result on the remaining bytes, `Offset
 bytes the spec consumes, and the invariant is kept.  (`canon` only identifies the two outcomes the property
 leaves open at the end of the input, see `Model/FilePiece.lean`.) -/
 theorem op_transparent (env : Env) (G : NumKind → Grammar) (hG : ∀ k, GrammarOK (G k))
-    (hH : env.cfg.fixH = true) (hI : env.cfg.fixI = true) (op : Op) (st : St) (h : Inv env st) :
+    (hH : env.cfg.fixH = true) (hI : env.cfg.fixI = true) (hF : env.cfg.fixF = true) (op : Op) (st : St) (h : Inv env st) :
     canon op (runOp env G op st).1 = (specOp G op (env.bytes.drop st.offset)).1 ∧
     (runOp env G op st).2.offset = st.offset + (specOp G op (env.bytes.drop st.offset)).2 ∧
     Inv env (runOp env G op st).2 :=
-  op_transparent_aux env G hG hH hI op st h
+  op_transparent_aux env G hG ⟨hH, hF⟩ hI op st h
 
 /-- **transcript_fn**: the transcript (results and offsets) of any operation sequence is the spec transcript
 of the bytes — hence identical for any two executions over the same bytes, whatever their chunk oracles,
 buffer sizes, page sizes and backends. -/
 theorem transcript_fn (env₁ env₂ : Env) (hb : env₁.bytes = env₂.bytes)
-    (hp₁ : 0 < env₁.cfg.page) (hH₁ : env₁.cfg.fixH = true) (hI₁ : env₁.cfg.fixI = true)
-    (hp₂ : 0 < env₂.cfg.page) (hH₂ : env₂.cfg.fixH = true) (hI₂ : env₂.cfg.fixI = true)
+    (hp₁ : 0 < env₁.cfg.page) (hH₁ : env₁.cfg.fixH = true) (hI₁ : env₁.cfg.fixI = true) (hF₁ : env₁.cfg.fixF = true)
+    (hp₂ : 0 < env₂.cfg.page) (hH₂ : env₂.cfg.fixH = true) (hI₂ : env₂.cfg.fixI = true) (hF₂ : env₂.cfg.fixF = true)
     (G : NumKind → Grammar) (hG : ∀ k, GrammarOK (G k)) (mb₁ mb₂ : Nat) (b₁ b₂ : Backend) (ops : List Op) :
     transcript env₁ G ops (init env₁ mb₁ b₁) = specTranscript G env₁.bytes ops 0 ∧
     transcript env₁ G ops (init env₁ mb₁ b₁) = transcript env₂ G ops (init env₂ mb₂ b₂) := by
-  obtain ⟨i1, o1⟩ := init_spec env₁ mb₁ b₁ hp₁ hH₁
-  obtain ⟨i2, o2⟩ := init_spec env₂ mb₂ b₂ hp₂ hH₂
-  have t1 := transcript_spec env₁ G hG hH₁ hI₁ ops _ i1
-  have t2 := transcript_spec env₂ G hG hH₂ hI₂ ops _ i2
+  obtain ⟨i1, o1⟩ := init_spec env₁ mb₁ b₁ hp₁ ⟨hH₁, hF₁⟩
+  obtain ⟨i2, o2⟩ := init_spec env₂ mb₂ b₂ hp₂ ⟨hH₂, hF₂⟩
+  have t1 := transcript_spec env₁ G hG ⟨hH₁, hF₁⟩ hI₁ ops _ i1
+  have t2 := transcript_spec env₂ G hG ⟨hH₂, hF₂⟩ hI₂ ops _ i2
   rw [o1] at t1; rw [o2] at t2
   exact ⟨t1, by rw [t1, t2, hb]⟩
 
@@ -88,12 +91,12 @@ theorem specOp_nil (G : NumKind → Grammar) (op : Op) :
 /-- **after_eof**: once the input is exhausted every further operation reports end of input (or "no word" /
 "nothing skipped"), never data, and stays at the end. -/
 theorem after_eof (env : Env) (G : NumKind → Grammar) (hG : ∀ k, GrammarOK (G k))
-    (hH : env.cfg.fixH = true) (hI : env.cfg.fixI = true) (op : Op) (st : St) (h : Inv env st)
+    (hH : env.cfg.fixH = true) (hI : env.cfg.fixI = true) (hF : env.cfg.fixF = true) (op : Op) (st : St) (h : Inv env st)
     (hend : env.bytes.drop st.offset = []) :
     (canon op (runOp env G op st).1 = Res.eof ∨ canon op (runOp env G op st).1 = Res.noWord ∨
       canon op (runOp env G op st).1 = Res.skipped) ∧
     (runOp env G op st).2.offset = st.offset ∧ env.bytes.drop (runOp env G op st).2.offset = [] := by
-  obtain ⟨a, b, _⟩ := op_transparent env G hG hH hI op st h
+  obtain ⟨a, b, _⟩ := op_transparent env G hG hH hI hF op st h
   rw [hend] at a b
   obtain ⟨s1, s2⟩ := specOp_nil G op
   rw [s2] at b
@@ -102,18 +105,19 @@ theorem after_eof (env : Env) (G : NumKind → Grammar) (hG : ∀ k, GrammarOK (
 
 /-! ## termination -/
 
-/-- **shift_progress**: a `Shift` on a window that has not seen the end succeeds, keeps `Offset()`, keeps the
-bytes already visible, and strictly decreases `mu` = (bytes of the input beyond the window) + (1 unless
-`at_end_`); on a window that has seen the end it throws.  So every loop around `Shift` runs at most
-`mu + 1 ≤ length + 2` times. -/
-theorem shift_progress (env : Env) (hH : env.cfg.fixH = true) (st : St) (h : Inv env st) :
+/-- **shift_progress**: a `Shift` on a window that has not seen the end succeeds, keeps `Offset()`, shows the same
+bytes at the same offsets as before as far as both windows reach, and strictly decreases `mu` = (bytes of the
+input beyond the window) + (1 unless `at_end_`) + (length + 2 while in mmap mode — the fall back to read() after
+a failed mmap happens at most once and restarts with an empty buffer); on a window that has seen the end it
+throws.  So every loop around `Shift` runs at most `mu + 1 ≤ 2·length + 4` times. -/
+theorem shift_progress (env : Env) (hH : env.cfg.fixH = true) (hF : env.cfg.fixF = true) (st : St) (h : Inv env st) :
     (st.atEnd = false → ∃ st', shift env st = .ok st' ∧ Inv env st' ∧ st'.offset = st.offset ∧
-        mu env st' < mu env st ∧ st.visible.length ≤ st'.visible.length ∧
+        mu env st' < mu env st ∧ st'.visible.take st.visible.length = st.visible.take st'.visible.length ∧
         (st'.visible ≠ [] ∨ st'.atEnd = true)) ∧
-    (st.atEnd = true → shift env st = .error .eof) ∧ mu env st ≤ env.bytes.length + 1 := by
+    (st.atEnd = true → shift env st = .error .eof) ∧ mu env st ≤ 2 * env.bytes.length + 3 := by
   refine ⟨fun he => ?_, fun he => shift_atEnd he, mu_le env st⟩
-  obtain ⟨st', hs, hp⟩ := shift_post hH h he
-  exact ⟨st', hs, hp.inv, hp.offset_eq, hp.mu_lt, hp.vis_le, hp.nonempty_or_end⟩
+  obtain ⟨st', hs, hp⟩ := shift_post ⟨hH, hF⟩ h he
+  exact ⟨st', hs, hp.inv, hp.offset_eq, hp.mu_lt, visible_common h hp.inv hp.offset_eq, hp.nonempty_or_end⟩
 
 theorem canon_fuel (op : Op) : canon op Res.fuel = Res.fuel := by cases op <;> rfl
 
@@ -143,10 +147,10 @@ theorem specOp_ne_fuel (G : NumKind → Grammar) (op : Op) (rest : List Byte) : 
 
 /-- **every operation terminates**: the fuel `2·length + 4` handed to the loops is never exhausted. -/
 theorem ops_terminate (env : Env) (G : NumKind → Grammar) (hG : ∀ k, GrammarOK (G k))
-    (hH : env.cfg.fixH = true) (hI : env.cfg.fixI = true) (op : Op) (st : St) (h : Inv env st) :
+    (hH : env.cfg.fixH = true) (hI : env.cfg.fixI = true) (hF : env.cfg.fixF = true) (op : Op) (st : St) (h : Inv env st) :
     (runOp env G op st).1 ≠ Res.fuel := by
   intro hc
-  obtain ⟨a, _, _⟩ := op_transparent env G hG hH hI op st h
+  obtain ⟨a, _, _⟩ := op_transparent env G hG hH hI hF op st h
   rw [hc, canon_fuel] at a
   exact specOp_ne_fuel G op _ a.symm
 
@@ -175,7 +179,7 @@ theorem compressed_members (dec : List Byte → Option (List Byte × List Byte))
 /-! ## tokenizers -/
 
 theorem lineIter_eq (env : Env) (G : NumKind → Grammar) (hG : ∀ k, GrammarOK (G k))
-    (hH : env.cfg.fixH = true) (hI : env.cfg.fixI = true) (d : Byte) (s : Bool) :
+    (hH : env.cfg.fixH = true) (hI : env.cfg.fixI = true) (hF : env.cfg.fixF = true) (d : Byte) (s : Bool) :
     ∀ (f : Nat) (st : St), Inv env st →
       lineIter env G d s f st = specLines G d s f (env.bytes.drop st.offset) := by
   intro f
@@ -183,7 +187,7 @@ theorem lineIter_eq (env : Env) (G : NumKind → Grammar) (hG : ∀ k, GrammarOK
   | zero => intro st _; rfl
   | succ f ih =>
     intro st h
-    obtain ⟨a, b, c⟩ := op_transparent env G hG hH hI (.readLineOrEOF d s) st h
+    obtain ⟨a, b, c⟩ := op_transparent env G hG hH hI hF (.readLineOrEOF d s) st h
     rw [canon_readLineOrEOF] at a
     simp only [lineIter, specLines]
     generalize runOp env G (.readLineOrEOF d s) st = out at a b c
@@ -206,10 +210,11 @@ theorem tokenizer_total (d : KV.Tokenize.Byte → Bool) (skip : Bool) (s : List 
   KV.Tokenize.tokens_eq_splitSpec d skip s
 
 theorem lineIterator_total (env : Env) (hp : 0 < env.cfg.page) (G : NumKind → Grammar) (hG : ∀ k, GrammarOK (G k))
-    (hH : env.cfg.fixH = true) (hI : env.cfg.fixI = true) (d : Byte) (s : Bool) (mb : Nat) (b : Backend) (f : Nat) :
+    (hH : env.cfg.fixH = true) (hI : env.cfg.fixI = true) (hF : env.cfg.fixF = true) (d : Byte) (s : Bool) (mb : Nat)
+    (b : Backend) (f : Nat) :
     lineIter env G d s f (init env mb b) = specLines G d s f env.bytes := by
-  obtain ⟨i, o⟩ := init_spec env mb b hp hH
-  rw [lineIter_eq env G hG hH hI d s f _ i, o]; rfl
+  obtain ⟨i, o⟩ := init_spec env mb b hp ⟨hH, hF⟩
+  rw [lineIter_eq env G hG hH hI hF d s f _ i, o]; rfl
 
 /-! ## non-vacuity -/
 
@@ -255,10 +260,11 @@ def env0 : Env := { cfg := { page := 4, fixH := true, fixI := true }, bytes := [
                     orc := fun _ => 3 }
 
 /-- the hypotheses of the theorems are met by a concrete non-trivial state: a window of 8 bytes over a
-14-byte input delivered in 3-byte reads, not at the end, with unread data both inside and beyond the window -/
+14-byte input delivered in 3-byte reads (after the 6-byte header `ReadFactory` read ahead), not at the end, with
+unread data both inside and beyond the window -/
 example : Inv env0 (init env0 1 .pipe) ∧ (init env0 1 .pipe).atEnd = false ∧
-    (init env0 1 .pipe).visible = [97, 98, 32] ∧ env0.bytes.drop 3 ≠ [] :=
-  ⟨(init_spec env0 1 .pipe (by decide) rfl).1, by decide, by decide, by decide⟩
+    (init env0 1 .pipe).visible = [97, 98, 32, 99, 100, 101] ∧ env0.bytes.drop 6 ≠ [] :=
+  ⟨(init_spec env0 1 .pipe (by decide) ⟨rfl, rfl⟩).1, by decide, by decide, by decide⟩
 
 example : transcript env0 (fun _ => toyGrammar) [.readDelimited isSpace, .readDelimited isSpace, .get, .peek]
     (init env0 1 .pipe) =
@@ -271,7 +277,7 @@ section Old
 def noGrammar : NumKind → Grammar := fun _ _ => none
 
 /-- today's tree: neither repair -/
-def oldCfg (page : Nat) : Cfg := { page := page, fixH := false, fixI := false }
+def oldCfg (page : Nat) : Cfg := { page := page, fixH := false, fixI := false, fixF := false }
 
 /-- H: read mode, window of 8 bytes (page 4): `ReadDelimited` twice over "ab cdefghijkl\n".  The second word
 makes `ReadShift` compact the buffer; `mapped_offset_` is not advanced, so `Offset()` reports 10 instead of 13. -/
@@ -296,16 +302,33 @@ theorem Old.spurious_eof :
       [(.bytes [97, 97, 97, 97, 97, 97, 97], 8), (.char 98, 9), (.char 98, 10)] := by
   decide
 
-/-- **negation of `op_transparent` / `transcript_fn` for today's code**: with either repair missing there are
+/-- F: mmap mode, window of 8 bytes (page 4) over "ab cd efghijklmnopq\n"; the second `mmap` (file offset 4) fails, so
+`MMapShift` falls back to read() at `desired_begin = 6` but leaves `mapped_offset_ = 0`: the word is right, `Offset()`
+reports 13 instead of 19. -/
+def envF : Env := { cfg := oldCfg 4, bytes := [97, 98, 32, 99, 100, 32, 101, 102, 103, 104, 105, 106, 107, 108, 109, 110, 111, 112, 113, 10],
+                    orc := fun _ => 1000, mmapFail := fun mo => decide (4 ≤ mo) }
+
+theorem Old.offset_after_mmap_fallback :
+    transcript envF noGrammar [.readDelimited isSpace, .readDelimited isSpace, .readDelimited isSpace] (init envF 1 .file) =
+      [(.bytes [97, 98], 2), (.bytes [99, 100], 5), (.bytes [101, 102, 103, 104, 105, 106, 107, 108, 109, 110, 111, 112, 113], 13)] ∧
+    specTranscript noGrammar envF.bytes [.readDelimited isSpace, .readDelimited isSpace, .readDelimited isSpace] 0 =
+      [(.bytes [97, 98], 2), (.bytes [99, 100], 5), (.bytes [101, 102, 103, 104, 105, 106, 107, 108, 109, 110, 111, 112, 113], 19)] := by
+  decide
+
+/-- **negation of `op_transparent` / `transcript_fn` for today's code**: with any one repair missing there are
 an input, a backend, a buffer size and an operation sequence whose transcript is not the spec's. -/
 theorem Old.not_transparent :
     (∃ env mb b ops, 0 < env.cfg.page ∧ env.cfg.fixH = false ∧
         transcript env noGrammar ops (init env mb b) ≠ specTranscript noGrammar env.bytes ops 0) ∧
-    (∃ env mb b ops, 0 < env.cfg.page ∧ env.cfg.fixH = true ∧ env.cfg.fixI = false ∧
+    (∃ env mb b ops, 0 < env.cfg.page ∧ env.cfg.fixH = true ∧ env.cfg.fixF = true ∧ env.cfg.fixI = false ∧
+        transcript env noGrammar ops (init env mb b) ≠ specTranscript noGrammar env.bytes ops 0) ∧
+    (∃ env mb b ops, 0 < env.cfg.page ∧ env.cfg.fixH = true ∧ env.cfg.fixI = true ∧ env.cfg.fixF = false ∧
         transcript env noGrammar ops (init env mb b) ≠ specTranscript noGrammar env.bytes ops 0) := by
   refine ⟨⟨envH, 1, .pipe, [.readDelimited isSpace, .readDelimited isSpace], by decide, rfl, by decide⟩,
-          ⟨{ envI with cfg := { page := 4, fixH := true, fixI := false } }, 1, .file, [.readLine 10 true, .get, .get],
-           by decide, rfl, rfl, by decide⟩⟩
+          ⟨{ envI with cfg := { page := 4, fixH := true, fixI := false, fixF := true } }, 1, .file, [.readLine 10 true, .get, .get],
+           by decide, rfl, rfl, rfl, by decide⟩,
+          ⟨{ envF with cfg := { page := 4, fixH := true, fixI := true, fixF := false } }, 1, .file,
+           [.readDelimited isSpace, .readDelimited isSpace, .readDelimited isSpace], by decide, rfl, rfl, rfl, by decide⟩⟩
 
 /-- the same two witnesses are handled correctly by the repaired code (so the repairs are what matters) -/
 theorem Old.repaired_witnesses :
@@ -314,7 +337,10 @@ theorem Old.repaired_witnesses :
       specTranscript noGrammar envH.bytes [.readDelimited isSpace, .readDelimited isSpace] 0 ∧
     transcript { envI with cfg := { page := 4 } } noGrammar [.readLine 10 true, .get, .get]
         (init { envI with cfg := { page := 4 } } 1 .file) =
-      specTranscript noGrammar envI.bytes [.readLine 10 true, .get, .get] 0 := by
+      specTranscript noGrammar envI.bytes [.readLine 10 true, .get, .get] 0 ∧
+    transcript { envF with cfg := { page := 4 } } noGrammar [.readDelimited isSpace, .readDelimited isSpace, .readDelimited isSpace]
+        (init { envF with cfg := { page := 4 } } 1 .file) =
+      specTranscript noGrammar envF.bytes [.readDelimited isSpace, .readDelimited isSpace, .readDelimited isSpace] 0 := by
   decide
 
 end Old
